@@ -59,6 +59,9 @@ Inductive sev :=
 | DStoStop (i : N)
 | DTrigger (i : N)
 | DGetFrame (i : N) (res : option (N * N * N))            (* hardware id, tag, shape; None = the call failed *)
+| DGetEmpty (i : N)                                          (* the frame call returned no frame (Device_Ok, zero bytes): the source
+                                                                cancels the write (abort_write + an empty unmap, neither of which
+                                                                changes the queue) and asks again *)
 | DAppend (i : N) (ok : bool) (fs : list frm)
 | WMapEnter | WMap (ok : bool) | Commit (ok : bool) (f : frm)
 | Accept (b : bool)
@@ -217,6 +220,9 @@ Definition step_stream (s : stream) (a : actor) (e : sev) : option stream :=
   | ASrc, DGetFrame i None =>
       guard (match s_pc s with SMapped => true | _ => false end && optN_eqb (cam s) i && hst_eqb (cam_st s) HRunning)
             (s <| s_pc := SFailStop |> <| cam_failed := true |>)
+  | ASrc, DGetEmpty i =>
+      guard (match s_pc s with SMapped => true | _ => false end && optN_eqb (cam s) i && hst_eqb (cam_st s) HRunning)
+            (s <| s_pc := SLoop |>)
   | ASrc, Commit ok f =>
       guard (match s_pc s with SGot f' => frm_eqb f f' | _ => false end && Bool.eqb ok (accepting s))
             (if ok then s <| log := log s ++ [f] |> <| s_pc := SLoop |> else s <| dropped := true |> <| s_pc := SLoop |>)
